@@ -9,7 +9,7 @@ def run(ctx):
     else:
         ctx.run_shards(b, "TestVerifC04", 16, 900 if ctx.tier == "quick" else 3400, "c04")
     return driver.finish(
-        ctx, "exploration",
+        ctx, "fault_enumeration",
         "three monitors. (A) wire observer: real client <-> recording relay <-> real server for carrier in {tcp, unix, ws, udp(KCP), dns, tcp+tls, unix+tls, wss, "
         "stdio and stdio+tls (no relay: flags only), udp+secret} x server certificate {none, good, untrusted|wronghost|expired} x client --secure x client --insecure (+ client without CA); "
         "the application payload is a random 24-byte marker repeated 400x (80x over DNS) in both directions; the capture is de-framed (websocket frames unmasked, "
